@@ -26,7 +26,7 @@ CORPUS = [
 
 
 def run(ctx):
-    ctx.audit(extra_modules=lean_extra())
+    ctx.audit(extra_modules=lean_extra("C05"))
     n = 300 if not ctx.thorough() else 10000
     graphcheck.run_family(ctx, n, ASPECTS, CHECKS, SIGS, corpus=CORPUS, flavours=("future", "coro", "tornado"))
     # asynchronous holding nodes: balance at the final quiescent point, never negative, never rising after zero
@@ -41,7 +41,7 @@ def run(ctx):
 
 
 def replay(ctx, data):
-    ctx.audit(extra_modules=lean_extra())
+    ctx.audit(extra_modules=lean_extra("C05"))
     case = data["case"]
     if any(op["op"] in ("advance", "settle", "jobdone") for op in case["ops"]):
         ac.evaluate(ctx, case, ac.rerun(case), ["balance"], SIGS_B)
